@@ -16,6 +16,7 @@ package agent
 import (
 	"bytes"
 	"encoding/binary"
+	"io"
 	"net"
 
 	"github.com/honeytrap/protocol"
@@ -39,7 +40,7 @@ func (d *Decoder) ReadData() []byte {
 	l := d.ReadUint16()
 
 	buffer := make([]byte, l)
-	if _, err := d.Read(buffer[:]); err != nil {
+	if _, err := io.ReadFull(d, buffer[:]); err != nil {
 		d.LastError = err
 		return []byte{}
 	}
@@ -55,7 +56,7 @@ func (d *Decoder) ReadString() string {
 	l := d.ReadUint16()
 
 	buffer := make([]byte, l)
-	if _, err := d.Read(buffer[:]); err != nil {
+	if _, err := io.ReadFull(d, buffer[:]); err != nil {
 		d.LastError = err
 		return ""
 	}
